@@ -19,7 +19,11 @@ RULE = ("feature collections with 0..5 features, heterogeneous property sets ove
 
 NAMES = ["name", "crs", 'we"ird', "back\\slash", "tab\there", "ünï", "", "bbox"]
 GEOMS = [None, {"type": "Point", "coordinates": [1.5, 2]}, {"type": "LineString", "coordinates": [[0, 0], [1, 1]]},
-         {"type": "Polygon", "coordinates": [[[0, 0], [1, 0], [1, 1], [0, 0]]]}]
+         {"type": "Polygon", "coordinates": [[[0, 0], [1, 0], [1, 1], [0, 0]]]},
+         # geometries without a "coordinates" member, nested, and with empty coordinates: objects like any other
+         {"type": "GeometryCollection", "geometries": [{"type": "Point", "coordinates": [0, 1]}, {"type": "LineString", "coordinates": [[0, 0], [2, 2]]}]},
+         {"type": "GeometryCollection", "geometries": [{"type": "GeometryCollection", "geometries": []}]},
+         {"type": "MultiPoint", "coordinates": []}]
 PROPS = {"a": [1, 2, None, 7], "b": ["x", "ä", None, 'q"r', "p\u2028q", "r\ns"], "c": [1.5, None, -2.25], "d": [True, False, None], "e": ["only-here", None]}
 
 
